@@ -753,6 +753,9 @@ func (w *worker) scionLoop() {
 			dg, fs, inner := w.scionDatagram(rc, rq, i, good)
 			view, pl, vi := scionView(dg)
 			d := dgramRec{fromServer: fs, payload: pl, raw: dg, front: view, vi: vi}
+			if rc.kind == 27 {
+				d.delayMs = rc.p1
+			}
 			if w.nts && pl != nil {
 				w.ntsFacts(&d, rq)
 			}
@@ -772,6 +775,9 @@ func (w *worker) scionLoop() {
 		prevUID := rq.uid
 		w.mu.Unlock()
 		for _, d := range rq.sent {
+			if d.delayMs > 0 {
+				time.Sleep(time.Duration(d.delayMs) * time.Millisecond)
+			}
 			_, _ = w.connS.WriteToUDPAddrPort(d.raw, from)
 		}
 		w.mu.Lock()
